@@ -321,3 +321,23 @@ Theorem C12_udp_session_write_not_refreshing_variant_refuted :
   ss_lost (sess_run false UdpSessionTTLSeconds {| ss_last := 0; ss_closed := false; ss_lost := 0 |} feed_history) = 2.
 Proof. exact c12_session_out_only_refuted. Qed.
 Print Assumptions C12_udp_session_write_not_refreshing_variant_refuted.
+
+(* ---- the copy-buffer pool: concurrently active copy directions never share a buffer ---- *)
+(* PARTIAL: the unbounded statement (every Get/Put history of the code's discipline — each direction puts the buffer it
+   holds back once — keeps the held buffers pairwise distinct) is kept type-checked; decided on the real code by harness
+   mode poolprobe after relays ending in every way (tunnel write error, local write error, short write, clean). *)
+Definition C12_copy_buffer_pool_full_statement : Prop :=
+  forall ops : list bpop, NoDup (bp_held (fold_left (bpool_step false) ops bpool0)).
+
+(* the variant that puts a buffer back twice on the write-error path: the next two directions share one buffer *)
+Theorem C12_copy_buffer_double_put_variant_refuted :
+  bp_held (fold_left (bpool_step true) [BpGet; BpPut 0; BpGet; BpGet]%nat bpool0) = [0; 0]%nat /\
+  ~ NoDup (bp_held (fold_left (bpool_step true) [BpGet; BpPut 0; BpGet; BpGet]%nat bpool0)).
+Proof. exact c12_double_put_refuted. Qed.
+Print Assumptions C12_copy_buffer_double_put_variant_refuted.
+
+Theorem C12_copy_buffer_single_put_example :
+  bp_held (fold_left (bpool_step false) [BpGet; BpPut 0; BpGet; BpGet; BpPut 1; BpGet]%nat bpool0) = [1; 0]%nat /\
+  NoDup (bp_held (fold_left (bpool_step false) [BpGet; BpPut 0; BpGet; BpGet; BpPut 1; BpGet]%nat bpool0)).
+Proof. exact c12_single_put_example. Qed.
+Print Assumptions C12_copy_buffer_single_put_example.
